@@ -1041,7 +1041,7 @@ func init() {
 		Control{Name: "raw-html-kept-under-IgnoreRaw-with-filter", Props: []string{"C10"}, File: "html_renderer.go",
 			Old: "\t\tif !r.IgnoreRaw {\n\t\t\tif r.FilterTag == nil {", New: "\t\tif !r.IgnoreRaw || r.FilterTag != nil {\n\t\t\tif r.FilterTag == nil {", Expect: "preInline"},
 		Control{Name: "image-title-dropped", Props: []string{"C10"}, File: "html_renderer.go",
-			Old: "\t\tr.dst = append(r.dst, `\"`...)\n\t\tif def.TitlePresent {\n\t\t\tr.dst = append(r.dst, ` title=\"`...)\n\t\t\tr.dst = append(r.dst, html.EscapeString(def.Title)...)\n\t\t\tr.dst = append(r.dst, `\"`...)\n\t\t}\n\t\tr.dst = appendAltText", New: "\t\tr.dst = append(r.dst, `\"`...)\n\t\tr.dst = appendAltText", Expect: "HTX-KIND/preInline[ImageKind]"},
+			Old: "\t\tr.dst = append(r.dst, `\"`...)\n\t\tif def.TitlePresent {\n\t\t\tr.dst = append(r.dst, ` title=\"`...)\n\t\t\tr.dst = append(r.dst, html.EscapeString(def.Title)...)\n\t\t\tr.dst = append(r.dst, `\"`...)\n\t\t}\n\t\tr.dst = appendAltText", New: "\t\tr.dst = append(r.dst, `\"`...)\n\t\tr.dst = appendAltText", Expect: "HTX-KIND/preInline[ImageKind"},
 		Control{Name: "alt-text-skips-soft-breaks", Props: []string{"C10"}, File: "html_renderer.go",
 			Old: "\t\tcase IndentKind, SoftLineBreakKind, HardLineBreakKind:\n\t\t\tif !hasAttr {", New: "\t\tcase IndentKind, HardLineBreakKind:\n\t\t\tif !hasAttr {", Expect: "ALT-KINDS/appendAltText[SoftLineBreakKind]"},
 		Control{Name: "neg-preBlock-default-descends", Props: []string{"C10"}, File: "html_renderer.go", Negative: true,
